@@ -1,4 +1,4 @@
-"""tools/viol.py Cxx : summarise replay files of the last run by monitor/clause/feature."""
+"""tools/viol.py Cxx [N]: summarise replay files of the last run by monitor/clause/feature (N = chars of example case)."""
 import json,glob,sys,collections
 prop=sys.argv[1]
 c=collections.Counter()
@@ -10,4 +10,4 @@ for f in glob.glob(f'/verif/replays/{prop}/*.json'):
 for k,n in sorted(c.items()):
     print(n,k)
     if len(sys.argv)>2:
-        f,v=ex[k]; print('   ',f); print('   ',v['msg'][:400]); print('    case:',json.dumps(v.get('case'))[:600])
+        f,v=ex[k]; print('   ',f); print('   ',v['msg'][:300]); print('    case:',json.dumps(v.get('case'))[:int(sys.argv[2])])
